@@ -279,6 +279,12 @@ theorem inv_run (evs : List Ev) : ∀ (st : St), Inv st → Inv (run .stamped st
     intro st h
     apply ih
     cases ev with
+    | txn id =>
+      show Inv (anchorTxn st id)
+      unfold anchorTxn
+      split
+      · exact h
+      · exact ⟨h.eps, h.all, h.ser⟩
     | reload r => exact inv_reload st r h
     | reloadNow r => exact inv_reloadNow st r h
     | advance d => exact inv_advance st d h
@@ -293,11 +299,370 @@ theorem requiredOK_of_inv (st : St) (h : Inv st) : requiredOK st.cur st.all st.m
     intro e he
     exact (h.eps hc' e he).1
 
+/-! ### transactions in flight: the proxy keeps managing what the engine still serves them from -/
+
+theorem stampOf_mono (es : List String) (s : Nat) (old : List (String × Nat)) (e : String) (k : Nat)
+    (hk : k < s) (h : k < stampOf old e) : k < stampOf (es.map (·, s) ++ old) e := by
+  rw [stampOf_set]
+  split
+  · exact hk
+  · exact h
+
+/-- What an update does, as far as the in-flight transactions are concerned. -/
+theorem reload_spec (st : St) (new : Req) : ∀ st', st' = reload .stamped st new →
+    st'.now = st.now ∧ (∀ e ∈ st.managed, e ∈ st'.managed) ∧
+    (∀ e k, k ≤ st.serial → k < stampOf st.stamps e → k < stampOf st'.stamps e) ∧
+    (∀ k, k ≤ st.serial → k < st.allStamp → k < st'.allStamp) ∧ (st.all = true → st'.all = true) ∧
+    ((st'.jobs = st.jobs ∧ st'.cur = st.cur ∧ st'.txns = st.txns) ∨
+     (st'.cur = new ∧ st'.txns = supersede st.now st.txns ∧ (new.ma = true → st'.all = true) ∧
+      (new.ma = false → ∀ e ∈ new.eps, e ∈ st'.managed) ∧
+      ∃ extra, st'.jobs = st.jobs ++ extra ∧ ∀ j ∈ extra, j.due = st.now + ttl)) := by
+  intro st' hst
+  subst hst
+  have hjobs : ∀ (nm : Bool) (tr : List String) (j : Job),
+      j ∈ (if st.cur.ma && !nm then [(⟨st.now + ttl, st.serial + 1, true, []⟩ : Job)] else []) ++
+        (if tr.isEmpty then [] else [(⟨st.now + ttl, st.serial + 1, false, tr⟩ : Job)]) → j.due = st.now + ttl := by
+    intro nm tr j hj
+    simp only [List.mem_append] at hj
+    rcases hj with hj | hj
+    · split at hj
+      · simp only [List.mem_singleton] at hj; subst hj; rfl
+      · simp at hj
+    · split at hj
+      · simp at hj
+      · simp only [List.mem_singleton] at hj; subst hj; rfl
+  unfold reload
+  simp only [Bool.false_eq_true, if_false]
+  by_cases hma : new.ma = true
+  · simp only [hma, if_true]
+    cases hf : st.failPut with
+    | succ f =>
+      refine ⟨rfl, fun e he => he, fun e k _ h => h, fun k hk _ => Nat.lt_succ_of_le hk, fun h => h, Or.inl ⟨rfl, rfl, rfl⟩⟩
+    | zero =>
+      refine ⟨rfl, fun e he => he, fun e k _ h => h, fun k hk _ => Nat.lt_succ_of_le hk, fun _ => rfl, Or.inr ?_⟩
+      refine ⟨rfl, rfl, fun _ => rfl, (by intro h; cases h), _, (by simp only [List.append_assoc]; rfl), ?_⟩
+      intro j hj
+      exact hjobs _ _ j hj
+  · have hma' : new.ma = false := by simpa using hma
+    simp only [hma', Bool.false_eq_true, if_false]
+    obtain ⟨_, p2⟩ := putAll_facts st.failPut new.eps
+    by_cases hok : (putAll st.failPut new.eps).2.2.2 = true
+    · obtain ⟨q1, _⟩ := p2 hok
+      simp only [hok, if_true]
+      refine ⟨(by first | rfl | trivial), fun e he => by simp [he], ?_, fun k _ h => h, fun h => h, Or.inr ?_⟩
+      · intro e k hk h
+        exact stampOf_mono _ _ _ _ _ (Nat.lt_succ_of_le hk) h
+      · refine ⟨(by first | rfl | trivial), (by first | rfl | trivial), (by intro h; cases h), (fun _ e he => by simp [q1, he]), _,
+          (by simp only [List.append_assoc]; rfl), ?_⟩
+        intro j hj
+        exact hjobs _ _ j hj
+    · simp only [hok, Bool.false_eq_true, if_false]
+      refine ⟨(by first | rfl | trivial), fun e he => by simp [he], ?_, fun k _ h => h, fun h => h, Or.inl ⟨(by first | rfl | trivial), (by first | rfl | trivial), (by first | rfl | trivial)⟩⟩
+      intro e k hk h
+      exact stampOf_mono _ _ _ _ _ (Nat.lt_succ_of_le hk) h
+
+/-- The facts that protect an in-flight transaction. -/
+def TxnFacts (st : St) (x : Txn) : Prop :=
+  (x.sup = none → x.req = st.cur) ∧
+  (∀ s, x.sup = some s → s ≤ st.now ∧
+    (x.req.ma = false → ∀ e ∈ x.req.eps, e ∈ st.managed ∧
+      ∀ j ∈ st.jobs, j.global = false → e ∈ j.eps → j.serial < stampOf st.stamps e ∨ s + ttl ≤ j.due) ∧
+    (x.req.ma = true → st.all = true ∧
+      ∀ j ∈ st.jobs, j.global = true → j.serial < st.allStamp ∨ s + ttl ≤ j.due))
+
+structure InvT (st : St) : Prop where
+  inv : Inv st
+  tx : ∀ x ∈ st.txns, x.valid st.now = true → TxnFacts st x
+
+theorem invT_init : InvT {} := ⟨inv_init, by intro x hx; simp at hx⟩
+
+theorem valid_supersede {x : Txn} {t : Nat} (hs : x.sup = none)
+    (h : ({ x with sup := some t } : Txn).valid t = true) : x.valid t = true := by
+  simp only [Txn.valid, hs, Bool.and_eq_true, Bool.not_eq_true', decide_eq_true_eq] at h ⊢
+  exact ⟨⟨h.1.1, h.1.2⟩, trivial⟩
+
+theorem invT_reload (st : St) (new : Req) (h : InvT st) : InvT (reload .stamped st new) := by
+  refine ⟨inv_reload st new h.inv, ?_⟩
+  obtain ⟨f1, f2, f3, f4, f5, f6⟩ := reload_spec st new _ rfl
+  intro x hx hv
+  rw [f1] at hv
+  rcases f6 with ⟨j1, j2, j3⟩ | ⟨c1, c2, c3, c4, extra, c5, c6⟩
+  · -- the update was refused: the same transactions, jobs and configuration; more is managed
+    rw [j3] at hx
+    obtain ⟨t1, t2⟩ := h.tx x hx hv
+    refine ⟨by rw [j2]; exact t1, ?_⟩
+    intro s hs
+    obtain ⟨u1, u2, u3⟩ := t2 s hs
+    refine ⟨by rw [f1]; exact u1, ?_, ?_⟩
+    · intro hm e he
+      obtain ⟨v1, v2⟩ := u2 hm e he
+      refine ⟨f2 e v1, ?_⟩
+      intro j hj hg hej
+      rw [j1] at hj
+      rcases v2 j hj hg hej with v | v
+      · exact Or.inl (f3 e _ (h.inv.ser j hj) v)
+      · exact Or.inr v
+    · intro hm
+      obtain ⟨v1, v2⟩ := u3 hm
+      refine ⟨f5 v1, ?_⟩
+      intro j hj hg
+      rw [j1] at hj
+      rcases v2 j hj hg with v | v
+      · exact Or.inl (f4 _ (h.inv.ser j hj) v)
+      · exact Or.inr v
+  · -- the update went through
+    rw [c2] at hx
+    simp only [supersede, List.mem_map] at hx
+    obtain ⟨y, hy, hyx⟩ := hx
+    by_cases hsn : y.sup.isNone = true
+    · -- anchored to the version that is being superseded now
+      have hs : y.sup = none := by simpa using hsn
+      rw [if_pos hsn] at hyx
+      subst hyx
+      have hvy : y.valid st.now = true := valid_supersede hs hv
+      obtain ⟨t1, _⟩ := h.tx y hy hvy
+      have hreq := t1 hs
+      refine ⟨by intro hc; simp at hc, ?_⟩
+      intro s hs'
+      simp only [Option.some.injEq] at hs'
+      subst hs'
+      refine ⟨by rw [f1]; exact Nat.le_refl _, ?_, ?_⟩
+      · intro hm e he
+        have hm' : st.cur.ma = false := by rw [← hreq]; exact hm
+        have he' : e ∈ st.cur.eps := by rw [← hreq]; exact he
+        obtain ⟨v1, v2⟩ := h.inv.eps hm' e he'
+        refine ⟨f2 e v1, ?_⟩
+        intro j hj hg hej
+        rw [c5, List.mem_append] at hj
+        rcases hj with hj | hj
+        · exact Or.inl (f3 e _ (h.inv.ser j hj) (v2 j hj hg hej))
+        · exact Or.inr (by rw [c6 j hj]; exact Nat.le_refl _)
+      · intro hm
+        have hm' : st.cur.ma = true := by rw [← hreq]; exact hm
+        obtain ⟨v1, v2⟩ := h.inv.all hm'
+        refine ⟨f5 v1, ?_⟩
+        intro j hj hg
+        rw [c5, List.mem_append] at hj
+        rcases hj with hj | hj
+        · exact Or.inl (f4 _ (h.inv.ser j hj) (v2 j hj hg))
+        · exact Or.inr (by rw [c6 j hj]; exact Nat.le_refl _)
+    · -- superseded earlier
+      rw [if_neg hsn] at hyx
+      subst hyx
+      obtain ⟨t1, t2⟩ := h.tx y hy hv
+      refine ⟨by intro hc; rw [hc] at hsn; simp at hsn, ?_⟩
+      intro s hs
+      obtain ⟨u1, u2, u3⟩ := t2 s hs
+      refine ⟨by rw [f1]; exact u1, ?_, ?_⟩
+      · intro hm e he
+        obtain ⟨v1, v2⟩ := u2 hm e he
+        refine ⟨f2 e v1, ?_⟩
+        intro j hj hg hej
+        rw [c5, List.mem_append] at hj
+        rcases hj with hj | hj
+        · rcases v2 j hj hg hej with v | v
+          · exact Or.inl (f3 e _ (h.inv.ser j hj) v)
+          · exact Or.inr v
+        · exact Or.inr (by rw [c6 j hj]; omega)
+      · intro hm
+        obtain ⟨v1, v2⟩ := u3 hm
+        refine ⟨f5 v1, ?_⟩
+        intro j hj hg
+        rw [c5, List.mem_append] at hj
+        rcases hj with hj | hj
+        · rcases v2 j hj hg with v | v
+          · exact Or.inl (f4 _ (h.inv.ser j hj) v)
+          · exact Or.inr v
+        · exact Or.inr (by rw [c6 j hj]; omega)
+
+theorem valid_lt_sup {x : Txn} {t s : Nat} (hv : x.valid t = true) (hs : x.sup = some s) : t < s + ttl := by
+  simp only [Txn.valid, hs, Bool.and_eq_true, decide_eq_true_eq] at hv
+  exact hv.2
+
+theorem valid_mono {x : Txn} {t t' : Nat} (hle : t ≤ t') (hv : x.valid t' = true) : x.valid t = true := by
+  simp only [Txn.valid, Bool.and_eq_true, Bool.not_eq_true', decide_eq_true_eq] at hv ⊢
+  refine ⟨⟨hv.1.1, by omega⟩, ?_⟩
+  cases hs : x.sup with
+  | none => rfl
+  | some s =>
+    have := hv.2
+    rw [hs] at this
+    simp only [decide_eq_true_eq] at this ⊢
+    omega
+
+theorem txnFacts_fire (st : St) (j : Job) (x : Txn) (t' : Nat) (hj : j ∈ st.jobs) (hdue : j.due ≤ t')
+    (hv : x.valid t' = true) (h : TxnFacts st x) : TxnFacts (fire .stamped st j) x := by
+  obtain ⟨t1, t2⟩ := h
+  unfold fire
+  by_cases hg : j.global = true
+  · simp only [hg, if_true]
+    split
+    · exact ⟨t1, t2⟩
+    · rename_i hns
+      have hkeep : ∀ s, x.sup = some s → x.req.ma = true → False := by
+        intro s hs hm
+        rcases (t2 s hs).2.2 hm |>.2 j hj hg with v | v
+        · exact hns ⟨trivial, v⟩
+        · have := valid_lt_sup hv hs; omega
+      split
+      · refine ⟨t1, ?_⟩
+        intro s hs
+        obtain ⟨u1, u2, u3⟩ := t2 s hs
+        exact ⟨u1, u2, u3⟩
+      · refine ⟨t1, ?_⟩
+        intro s hs
+        obtain ⟨u1, u2, u3⟩ := t2 s hs
+        exact ⟨u1, u2, fun hm => absurd hm (fun hm => hkeep s hs hm)⟩
+  · have hg' : j.global = false := by simpa using hg
+    simp only [hg', Bool.false_eq_true, if_false]
+    refine ⟨t1, ?_⟩
+    intro s hs
+    obtain ⟨u1, u2, u3⟩ := t2 s hs
+    refine ⟨u1, ?_, u3⟩
+    intro hm e he
+    obtain ⟨v1, v2⟩ := u2 hm e he
+    refine ⟨?_, v2⟩
+    simp only [List.mem_filter, v1, true_and, Bool.not_eq_true', List.contains_eq_mem, decide_eq_false_iff_not]
+    intro hdel
+    have hst := delAll_sub _ _ e hdel
+    simp only [List.mem_filter, bne_self_eq_false, Bool.false_or, decide_eq_true_eq] at hst
+    rcases v2 j hj hg' hst.1 with v | v
+    · omega
+    · have := valid_lt_sup hv hs; omega
+
+theorem fire_txns (st : St) (j : Job) : (fire .stamped st j).txns = st.txns ∧ (fire .stamped st j).now = st.now := by
+  unfold fire
+  split
+  · split
+    · exact ⟨rfl, rfl⟩
+    · split <;> exact ⟨rfl, rfl⟩
+  · exact ⟨rfl, rfl⟩
+
+theorem fireAll_txns (due : List Job) : ∀ (st : St),
+    (due.foldl (fire .stamped) st).txns = st.txns ∧ (due.foldl (fire .stamped) st).now = st.now := by
+  induction due with
+  | nil => intro st; exact ⟨rfl, rfl⟩
+  | cons j js ih =>
+    intro st
+    simp only [List.foldl_cons]
+    obtain ⟨a, b⟩ := ih (fire .stamped st j)
+    obtain ⟨c, d⟩ := fire_txns st j
+    exact ⟨a.trans c, b.trans d⟩
+
+theorem txnFacts_fireAll (x : Txn) (t' : Nat) (hv : x.valid t' = true) (due : List Job) : ∀ (st : St), Inv st →
+    (∀ j ∈ due, j ∈ st.jobs ∧ j.due ≤ t') → TxnFacts st x →
+    TxnFacts (due.foldl (fire .stamped) st) x ∧ (due.foldl (fire .stamped) st).txns = st.txns ∧
+    (due.foldl (fire .stamped) st).now = st.now := by
+  induction due with
+  | nil => intro st _ _ h; exact ⟨h, rfl, rfl⟩
+  | cons j js ih =>
+    intro st hi hsub h
+    obtain ⟨hjm, hjd⟩ := hsub j (by simp)
+    have h1 := txnFacts_fire st j x t' hjm hjd hv h
+    obtain ⟨i1, i2, _⟩ := inv_fire st j hjm hi
+    obtain ⟨f1, f2⟩ := fire_txns st j
+    obtain ⟨k1, k2, k3⟩ := ih (fire .stamped st j) i1 (fun y hy => by rw [i2]; exact hsub y (by simp [hy])) h1
+    simp only [List.foldl_cons]
+    exact ⟨k1, k2.trans f1, k3.trans f2⟩
+
+theorem invT_advance (st : St) (d : Nat) (h : InvT st) : InvT (advance .stamped st d) := by
+  refine ⟨inv_advance st d h.inv, ?_⟩
+  unfold advance
+  intro x hx hv
+  simp only at hx hv
+  have hdue : ∀ j ∈ st.jobs.filter (fun j => decide (j.due ≤ st.now + d)), j ∈ st.jobs ∧ j.due ≤ st.now + d := by
+    intro j hj
+    obtain ⟨a, b⟩ := List.mem_filter.mp hj
+    exact ⟨a, by simpa using b⟩
+  have hv0 : x.valid st.now = true := valid_mono (Nat.le_add_right _ _) hv
+  have htx := (fireAll_txns (st.jobs.filter fun j => decide (j.due ≤ st.now + d)) st).1
+  rw [htx] at hx
+  obtain ⟨k1, _, _⟩ := txnFacts_fireAll x (st.now + d) hv _ st h.inv hdue (h.tx x hx hv0)
+  obtain ⟨_, i2, _⟩ := inv_fireAll (st.jobs.filter fun j => decide (j.due ≤ st.now + d)) st
+    (fun j hj => (List.mem_filter.mp hj).1) h.inv
+  obtain ⟨t1, t2⟩ := k1
+  refine ⟨t1, ?_⟩
+  intro s hs
+  obtain ⟨u1, u2, u3⟩ := t2 s hs
+  have hnow := (fireAll_txns (st.jobs.filter fun j => decide (j.due ≤ st.now + d)) st).2
+  refine ⟨by rw [hnow] at u1; exact Nat.le_trans u1 (Nat.le_add_right _ _), ?_, ?_⟩
+  · intro hm e he
+    obtain ⟨v1, v2⟩ := u2 hm e he
+    exact ⟨v1, fun j hjm => v2 j (by rw [i2]; exact (List.mem_filter.mp hjm).1)⟩
+  · intro hm
+    obtain ⟨v1, v2⟩ := u3 hm
+    exact ⟨v1, fun j hjm => v2 j (by rw [i2]; exact (List.mem_filter.mp hjm).1)⟩
+
+theorem invT_reloadNow (st : St) (new : Req) (h : InvT st) : InvT (reloadNow .stamped st new) := by
+  refine ⟨inv_reloadNow st new h.inv, ?_⟩
+  unfold reloadNow
+  split
+  · exact (invT_reload st new h).tx
+  · intro x hx hv
+    simp only [List.mem_map] at hx
+    obtain ⟨y, _, hy⟩ := hx
+    subst hy
+    simp [Txn.valid] at hv
+
+theorem invT_anchor (st : St) (id : String) (h : InvT st) : InvT (anchorTxn st id) := by
+  unfold anchorTxn
+  split
+  · exact h
+  · refine ⟨⟨h.inv.eps, h.inv.all, h.inv.ser⟩, ?_⟩
+    intro x hx hv
+    simp only [List.mem_append, List.mem_singleton] at hx
+    rcases hx with hx | hx
+    · exact h.tx x hx hv
+    · subst hx
+      exact ⟨fun _ => rfl, by intro s hs; cases hs⟩
+
+theorem invT_run (evs : List Ev) : ∀ (st : St), InvT st → InvT (run .stamped st evs) := by
+  induction evs with
+  | nil => intro st h; exact h
+  | cons ev evs ih =>
+    intro st h
+    apply ih
+    cases ev with
+    | txn id => exact invT_anchor st id h
+    | reload r => exact invT_reload st r h
+    | reloadNow r => exact invT_reloadNow st r h
+    | advance d => exact invT_advance st d h
+    | fail p d => exact ⟨⟨h.inv.eps, h.inv.all, h.inv.ser⟩, h.tx⟩
+
+/-- While the engine serves an in-flight transaction from its anchored version, the proxy manages what that
+    version requires. -/
+theorem txnView_managed (st : St) (h : InvT st) (id : String) (req : Req) (hv : txnView st id = some req) :
+    requiredOK req st.all st.managed = true := by
+  unfold txnView at hv
+  cases hf : st.txns.find? (fun x => x.id == id) with
+  | none => rw [hf] at hv; cases hv
+  | some x =>
+    rw [hf] at hv
+    simp only at hv
+    split at hv
+    · rename_i hval
+      cases hv
+      have hx : x ∈ st.txns := List.mem_of_find?_eq_some hf
+      obtain ⟨t1, t2⟩ := h.tx x hx hval
+      cases hs : x.sup with
+      | none => rw [t1 hs]; exact requiredOK_of_inv st h.inv
+      | some s =>
+        obtain ⟨_, u2, u3⟩ := t2 s hs
+        unfold requiredOK
+        by_cases hm : x.req.ma = true
+        · simp [hm, (u3 hm).1]
+        · have hm' : x.req.ma = false := by simpa using hm
+          simp only [hm', Bool.false_eq_true, if_false, List.all_eq_true, List.contains_eq_mem, decide_eq_true_eq]
+          intro e he
+          exact (u2 hm' e he).1
+    · cases hv
+
 /-! ### entries compared by text only (F14g.patch alone): reloads that wait for the previous one to settle -/
 
 /-- Every reload of the history happens when no un-manage job is pending. -/
 def Spaced (st : St) : List Ev → Prop
   | [] => True
+  | .txn id :: evs => Spaced (anchorTxn st id) evs
   | .reload r :: evs => st.jobs = [] ∧ Spaced (reload .byString st r) evs
   | .reloadNow r :: evs => st.jobs = [] ∧ Spaced (reloadNow .byString st r) evs
   | .advance d :: evs => Spaced (advance .byString st d) evs
@@ -416,6 +781,13 @@ theorem invS_run (evs : List Ev) : ∀ (st : St), InvS st → Spaced st evs → 
   | cons ev evs ih =>
     intro st h hs
     cases ev with
+    | txn id =>
+      refine ih _ ?_ hs
+      show InvS (anchorTxn st id)
+      unfold anchorTxn
+      split
+      · exact h
+      · exact ⟨h.eps, h.all⟩
     | reload r => exact ih _ (invS_reload st r hs.1 h) hs.2
     | reloadNow r => exact ih _ (invS_reloadNow st r hs.1 h) hs.2
     | advance d => exact ih _ (invS_advance st d h) hs
